@@ -155,6 +155,10 @@ func lockSpanMachine(c *Ctx, m *cmdModel, obl *oblSet, fn *ssa.Function, lockCal
 		},
 		RunDeferred: func(pc *PathCtx, s uint64, d *ssa.Defer) uint64 { return release(pc, s, d.Pos()) },
 		Step: func(pc *PathCtx, s uint64, ins ssa.Instruction) uint64 {
+			if w := m.waitedDone(c, ins); w != nil && m.handoffChan(c, w) != nil {
+				pc.Note("waited for persistence at %s", c.pos(ins.Pos()))
+				return s | lkWAITED
+			}
 			switch x := ins.(type) {
 			case *ssa.Call:
 				if x == lockCall {
